@@ -95,6 +95,9 @@ fn main() {
         drop(c);
         return;
     }
+    if args[0] == "--probe" && args.get(1).map(|s| s.as_str()) == Some("viewrun") {
+        std::process::exit(c02::viewrun_main(&args[2..]));
+    }
     if args[0] == "--probe" {
         std::process::exit(c16::probe_main(&args[1..]));
     }
